@@ -64,6 +64,7 @@ func loadRepo(repo string) (*Loaded, error) {
 		sort.Slice(l, func(i, j int) bool { return fnKey(l[i]) < fnKey(l[j]) })
 	}
 	ld.loadS = time.Since(start).Seconds()
+	theLoaded = ld
 	return ld, nil
 }
 
